@@ -56,8 +56,8 @@ def handle (l : Line) : IO Unit := do
   let sv := if svals.isEmpty then "-" else ",".intercalate svals
   IO.println s!"spec {l.id} base={sb.toHex} base2={sb.toHex} parts={showHexList sps} vals={sv}"
 
-def run : IO Unit := do
-  let stdin ← IO.getStdin
-  forEachLine stdin fun s => handle (parseLine s)
-
 end Driver.C05
+
+def main : IO Unit := do
+  let stdin ← IO.getStdin
+  Proto.forEachLine stdin fun s => Driver.C05.handle (Proto.parseLine s)
